@@ -107,6 +107,7 @@ func c06(c *Ctx) {
 	// shared: no factory error is discarded — a refused delete does not free the slot (C07.R4)
 	c07R4(c)
 	ruleShadow(c, "C06.R7", "the whole module")
+	c06R8(c)
 	ruleAddrFromSlice(c, "C06.R9", "the whole module (the primary address of an interface is recognised by comparing addresses)")
 }
 
@@ -892,4 +893,23 @@ func c06R6(c *Ctx) {
 	for _, call := range creates {
 		c.Require("C06.R6", "initTrunk: a trunk is created only into a free interface slot", fn, call, "len("+listed.Name()+") < "+quota, nil)
 	}
+}
+
+// R8: one cap for both families. getPoolConfig sets a single per-interface cap (the IPv4 quantity) and
+// Local checks both families against it; that is only right while the instance type allows as many IPv6
+// as IPv4 addresses per interface — which is what the capability test for shared-ENI dual stack says.
+func c06R8(c *Ctx) {
+	p := c.P
+	c.Rule("C06.R8", "Limits.SupportMultiIPIPv6 answers true only when the instance type allows as many IPv6 as IPv4 addresses per interface (the pool enforces one per-interface cap for both families)")
+	fn := p.Func(clientPkg, "Limits.SupportMultiIPIPv6")
+	if fn == nil {
+		c.Unres("C06.R8", "Limits.SupportMultiIPIPv6", "not found")
+		return
+	}
+	recv := "l"
+	if fn.Decl.Recv != nil && len(fn.Decl.Recv.List) == 1 && len(fn.Decl.Recv.List[0].Names) == 1 {
+		recv = fn.Decl.Recv.List[0].Names[0].Name
+	}
+	n := c.ResultOnlyUnder("C06.R8", "SupportMultiIPIPv6: true only for equal per-interface quantities", fn, 0, true, []string{recv + ".IPv6PerAdapter == " + recv + ".IPv4PerAdapter"})
+	c.Floor("C06.R8", "returns of SupportMultiIPIPv6 that can be true", 1, n)
 }
